@@ -244,6 +244,9 @@ def rand_case(rng, max_ops):
                 k[1] = nm if rng.random() < 0.9 else k[1]
             reads.append(['g', k])
     case['reads'] = reads
+    if kind == 'model' and rng.random() < 0.5:
+        top = max(span + [0])
+        case['rx'] = rng.choice([span[1:] + [top + 1], [top + 2] + span, list(reversed(span)), span[:1], span + [top + 1, top + 2]])
     # class hierarchy: the class under test is a subclass extending its parent's ALIASES, or the parent of such a subclass; the
     # other class is instantiated before or after it
     case['family'] = None
@@ -517,6 +520,9 @@ def impl(case):
     res['frame_noalias'] = _frame(a_obj)
     res['frame_twin'] = _frame(t_obj)
     res['final_names'] = list(a_obj.__dict__.get('names', []))
+    if case.get('rx') is not None:
+        res['reindex'] = cc.reindex_observation(a_obj, case['rx'], declared)
+        res['twin_reindex'] = cc.reindex_observation(t_obj, case['rx'], declared)
     # copies: the same object again (aliases kept, no series under alias names), as the twin's copies
     res['copies'] = {}
     sp = list(case['span'])
@@ -579,6 +585,9 @@ def _k_compare(case, m, o):
             return 'after op %d: %s' % (i, d)
     if len(m['steps']) != len(o['steps']):
         return 'different number of steps'
+    d = cc.compare_reindex(m, o)
+    if d:
+        return d
     final = o['steps'][-1]['st'] if o['steps'] else o['st0']
     series = {v[0]: v[3] for v in final['vars']}
     # reads
@@ -666,7 +675,8 @@ def guard(case, obs):
     """Inside the class of the kept finding (an alias named like a variable) the values setter re-enters the alias-resolving
     __setattr__ with the shadowed VARIABLE name; the model mirrors the shadowing for item / attribute access and for the export,
     not for that re-entry: K is silent for such histories, the oracle speaks. Elsewhere K is compared (C09's own guard apart)."""
-    if shadowed(case) and any((op[0] in ('setattr', 'addattr') and op[1] == 'values') or op[0] in cc.CROSS_OPS for op in case['ops']):
+    if shadowed(case) and (case.get('rx') is not None
+                           or any((op[0] in ('setattr', 'addattr') and op[1] == 'values') or op[0] in cc.CROSS_OPS for op in case['ops'])):
         return True          # (reindex() too walks `index` through the alias-resolving __getitem__)
     return c09.guard(case, obs)
 
@@ -774,6 +784,14 @@ def _oracle(case, obs):
         if a != t:
             bad('read|differs-from-twin', 'read %s gave %s, the twin %s' % (r, str(a)[:80], str(t)[:80]))
             break
+    if 'reindex' in obs and 'copy' not in final['adict']:
+        a, t = obs['reindex'], obs.get('twin_reindex')
+        if isinstance(a, dict) and isinstance(t, dict):
+            d = cc.diff_state(a, t)
+            if d:
+                bad('reindex|differs-from-twin', 'reindex(%s): %s' % (case['rx'], d[:200]))
+        elif a != t:
+            bad('reindex|differs-from-twin', 'reindex(%s) gave %s, on the twin %s' % (case['rx'], str(a)[:60], str(t)[:60]))
     # ---- copy() / reindex(): still an aliased object, equal to the twin's copy, nothing stored under alias names
     for label, c in sorted((obs.get('copies') or {}).items()):
         if c['outs'][0] != c['outs'][1]:
